@@ -763,10 +763,14 @@ impl Relation for OpRel {
                         out(l, &b)
                     }
                     _ => {
+                        // two vectors of independent lengths, both trimmed
                         let v2: AssignedVector<F, AY, VM, VA> =
-                            s.assign_with_filler(l, w.as_ref().map(|w| w.y.clone()), None)?;
-                        let r = s.is_equal(l, &v, &v2)?;
-                        outb(l, &r)
+                            s.assign_with_filler(l, w.as_ref().map(|w| w.y.clone()), Some(7u8))?;
+                        let (a, b) = s.get_limits(l, &v2)?;
+                        let f1 = s.padding_flag(l, &v)?;
+                        out(l, &a)?;
+                        out(l, &b)?;
+                        outb(l, &f1[0])
                     }
                 }
             }
@@ -1162,7 +1166,7 @@ pub fn classes(op: &Op, rng: &mut ChaCha8Rng, nrand: usize) -> Vec<Class> {
                 ($K:ty) => {{
                     let r1 = <$K>::random(&mut *rng);
                     let r2 = <$K>::random(&mut *rng);
-                    let hi = <$K>::from(2).pow_vartime([200u64]);
+                    let hi = <$K>::from(2u64).pow_vartime([200u64]);
                     let mut v = vec![
                         ("0,0", <$K>::ZERO, <$K>::ZERO),
                         ("0,1", <$K>::ZERO, <$K>::ONE),
@@ -1224,7 +1228,7 @@ pub fn classes(op: &Op, rng: &mut ChaCha8Rng, nrand: usize) -> Vec<Class> {
             out.push(cls("s=0", W { ks: vec![KFq::ZERO; n], kp: pts(rng), ..W::default() }));
             out.push(cls("s=1", W { ks: vec![KFq::ONE; n], kp: pts(rng), ..W::default() }));
             out.push(cls("s=-1", W { ks: vec![-KFq::ONE; n], kp: pts(rng), ..W::default() }));
-            out.push(cls("p=id", W { ks: vec![KFq::from(5); n], kp: vec![K256::identity(); n], ..W::default() }));
+            out.push(cls("p=id", W { ks: vec![KFq::from(5u64); n], kp: vec![K256::identity(); n], ..W::default() }));
             out.push(cls("same-base", W { ks: (0..n).map(|_| KFq::random(&mut *rng)).collect(), kp: vec![g; n], ..W::default() }));
             for i in 0..nrand.min(2) {
                 out.push(cls(&format!("rand{i}"), W { ks: (0..n).map(|_| KFq::random(&mut *rng)).collect(), kp: pts(rng), ..W::default() }));
